@@ -3,7 +3,6 @@ batch.driver.instance_collection.pool.PoolScheduler._compute_fair_share, oracle 
 import ast
 import json
 import os
-import textwrap
 from fractions import Fraction
 
 from .. import loader
@@ -92,7 +91,7 @@ class C11(Prop):
     level_note = ('Trusted: Lean kernel; the hand-written model FairShare.fairShare agrees with the Python loop only as far as the correspondence '
                   'cases show; Python float `int(free / n + 0.5)` is modelled by exact integer division (agrees for free < 2^52 / n: argued, '
                   'tested at half-integer boundaries, not proved); the SQL query is replaced by generated rows.')
-    budget = {'quick': 12000, 'thorough': 300000}
+    budget = {'quick': 40000, 'thorough': 600000}
     search_budget = {'quick': 20000, 'thorough': 300000}
     rule = ('case = (free cores, [(running, ready)] for 0..12 users); values from small/tie-heavy pools, multiples of 250 mcpu and up to 2^40; '
             'free drawn from {<=0, 1..n, a random point of a random segment between breakpoints, half-integer rounding boundaries of the final '
@@ -135,10 +134,9 @@ class C11(Prop):
             if isinstance(node, ast.ClassDef) and node.name == 'PoolScheduler':
                 for f in node.body:
                     if isinstance(f, ast.AsyncFunctionDef) and f.name == '_compute_fair_share':
-                        text = textwrap.dedent(ast.get_source_segment(src, f))
                         ns = {'sortedcontainers': sortedcontainers, 'Dict': typing.Dict, 'List': typing.List, 'Optional': typing.Optional,
                               'Tuple': typing.Tuple, 'Any': typing.Any}
-                        exec(compile(text, os.path.join(repo, POOL_PY), 'exec'), ns)
+                        exec(compile(ast.Module(body=[f], type_ignores=[]), os.path.join(repo, POOL_PY), 'exec'), ns)
 
                         class Bare:
                             pass
@@ -334,8 +332,12 @@ class C11(Prop):
         while changed and rounds < 200:
             changed = False
             rounds += 1
-            cands = []
-            for f in {cur['free'] // 2, cur['free'] - 1}:
+            cands = [{'free': cur['free'] // 2, 'users': [[r // 2, d // 2] for r, d in cur['users']]},
+                     {'free': cur['free'] // 2, 'users': [[r, d // 2] for r, d in cur['users']]},
+                     {'free': cur['free'], 'users': [[r // 2, d] for r, d in cur['users']]},
+                     {'free': cur['free'], 'users': [[r, min(d, cur['free'] + 1)] for r, d in cur['users']]}]
+            cands = [x for x in cands if x != cur]
+            for f in {cur['free'] // 2, cur['free'] - 1, cur['free'] - len(cur['users'])}:
                 if 0 <= f < cur['free']:
                     cands.append({'free': f, 'users': cur['users']})
             for i, (r, d) in enumerate(cur['users']):
